@@ -11,6 +11,21 @@ COMMON_NOTE = ("Trusted: Coq 8.16.1 kernel incl. vm_compute (no native_compute, 
                "coq/Gen regenerated from the source and the running interpreter by harness/extract.py. ")
 
 CHECKS = {
+    "C01": dict(
+        text="Theorems (Props/C01.v, 20, all Closed under the global context), for EVERY whitespace class containing LF/SP/TAB "
+             "and every pair of field-name classes: on both input forms the tokenizer returns and the token texts concatenate "
+             "to the input (form 2: each line + LF); every token of any successful tokenization respects the "
+             "_verify_token_text line contract; each of the six grouping stages preserves the token sequence (stage 4 under "
+             "the invariant that stages 1-3 establish for every tokenizer output); hence parse_accepting returns a file "
+             "element whose dump is the input, never raises on the two forms, and elsewhere raises only what the tokenizer "
+             "raises; agree c = true -> holds c = true for every case.  Unbounded line lists (induction).  The model is "
+             "compared with tokenize_deb822_file / parse_deb822_file(...).dump() and the element tree on every run.",
+        design="§4 C01",
+        note=COMMON_NOTE + "Modelled not verified: the regex leaves for _RE_FIELD_LINE and _RE_WHITESPACE_LINE (compared per "
+             "run as leaf cases), the generator pipeline collapsed to list functions, bytes input through the harness's UTF-8 "
+             "decoding; strict-mode outcome and paragraph class are compared, not proved.  An empty string as a line is "
+             "outside both forms (the code raises ValueError for it).",
+        technique="Coq proof (induction over line lists / token streams, parametric in the character classes) + in-Coq differential correspondence"),
     "C16": dict(
         text="Theorems (Props/C16.v, 14, all Closed under the global context): for every pattern list that converts, the "
              "expression assembled by globs_to_re (as the code builds it, DOTALL, used with fullmatch) matches a name iff "
